@@ -217,4 +217,25 @@ CHECKS = {
         "assumptions": [],
         "selftest": False,
     },
+    "C14": {
+        "level": "exploration",
+        "level_text": "seeded interleavings of read-modify-write updates, runner-style basic updates and loads issued by 1-3 simulated OS "
+                      "processes (own StatusFileData, own descriptors, own directory alias) and 0-3 daemon goroutines on one BaseWorkUnit; a "
+                      "scheduler runs exactly one task at a time and switches at every file step (lock, open, write, truncate, read), "
+                      "releasing a task into a lock step only when a non-blocking flock probe succeeds; every history is checked with "
+                      "porcupine against a sequential record model, plus per-owner update counts and parse results of every load",
+        "level_note": "the exclusion exercised is the real flock on real files; daemon goroutines are admitted into an operation one at a time "
+                      "(they serialise on the unit's mutex in the code); histories are <= 24 operations so the linearizability check is exact",
+        "quick": {"runs": 3000, "per_proc": 300},
+        "thorough": {"runs": 300000, "per_proc": 2000},
+        "hang_is_violation": True,
+        "proc_timeout": 300,
+        "rule": "one run = one seeded schedule of one operation mix; distinct_nontrivial counts distinct (processes, daemon goroutines, "
+                "operation counts, choice-point bucket) classes; counters.sched_choice_points is the number of scheduling decisions with "
+                "more than one eligible task",
+        "real": ["pkg/workceptor StatusFileData Save/Load/UpdateFullStatus, BaseWorkUnit wrappers", "lockedfile/flock"],
+        "stub": ["none (no clock, no network in this protocol)"],
+        "assumptions": ["flock is per open file description, so goroutines with separate descriptors contend like separate processes"],
+        "selftest": False,
+    },
 }
